@@ -1,7 +1,8 @@
 From Coq Require Import Extraction ExtrOcamlBasic.
-From PV Require Import Lib.ExtractBase Model.Registry Model.RegistryConc Model.RegistrySection Model.RegistryDecode.
+From PV Require Import Lib.ExtractBase Model.Registry Model.RegistryConc Model.RegistrySection Model.RegistryDecode Model.RegistryOverlay.
 Extraction Language OCaml.
 Extraction "extracted/C18_model.ml" xb_types run_case run_case_from expected_arg spec_b configured_b errors_b fresh_b shape_wf run_nest nest_b reround_ok
   run_sched observe_conc conc_b crec_ok sched_of_order cstate0 thread0 section_ok_b create_by_section registered_b new_by_name
   hook_oracle decode_target decode_map settings_accepted_b overlay create_by_settings factory_by_settings no_construction
-  is_factory_type factory_plugin_type factory_form lookup_factory new_factory_request.
+  is_factory_type factory_plugin_type factory_form lookup_factory new_factory_request
+  dec_cfg ovl_accepted_b cfg_agrees_b nregister_all create_named named_spec_b.
